@@ -37,6 +37,27 @@ type E3 struct {
 	K  int    `json:"k"`
 	S  []int  `json:"s"`
 }
+
+// E4: fields whose marshal methods sit on the pointer receiver.  Behind an embedded POINTER such fields
+// are addressable even when the outer struct value is not (passed by value, held in an interface, a
+// map element), so the classic package calls the methods there.
+type E4 struct {
+	J   PJM    `json:"j"`
+	T   PTM    `json:"t"`
+	Arr [1]PJM `json:"arr"`
+	N   int
+}
+type EmbPE4 struct {
+	*E4
+	O PJM `json:"o"` // not addressable when the outer struct is not
+}
+type midE4 struct {
+	*E4
+	M int
+}
+type EmbMidE4 struct {
+	midE4 // promoted through a struct value and then a pointer
+}
 type e3 struct{ X, Y int }
 type pe3 struct {
 	P int
@@ -282,6 +303,7 @@ var leaves = []leaf{
 	{"JScr", same[JScr](), 2}, {"TScr", same[TScr](), 2}, {"ITM", same[ITM](), 1}, {"SliceM", same[SliceM](), 1}, {"MapT", same[MapT](), 1},
 	{"MarshI", same[MarshI](), 1}, {"TextI", same[TextI](), 1},
 	{"E1", same[E1](), 2}, {"E2", same[E2](), 1}, {"EmbU", same[EmbU](), 1}, {"EmbPU", same[EmbPU](), 1}, {"EmbTM", same[EmbTM](), 1}, {"EmbPJM", same[EmbPJM](), 1},
+	{"EmbPE4", same[EmbPE4](), 2}, {"EmbMidE4", same[EmbMidE4](), 1}, {"E4", same[E4](), 1},
 	{"EmbNI", same[EmbNI](), 1}, {"Embni", same[Embni](), 1}, {"EmbDup", same[EmbDup](), 1}, {"EmbTagged", same[EmbTagged](), 1}, {"EmbPE", same[EmbPE](), 1},
 	{"Diamond", same[Diamond](), 1}, {"Rec", same[Rec](), 1}, {"Shadow", same[Shadow](), 1}, {"StrOpts", same[StrOpts](), 1},
 	{"*int", same[*int](), 1}, {"**string", same[**string](), 1}, {"[]any", same[[]any](), 1}, {"map[string]any", same[map[string]any](), 1},
@@ -318,7 +340,7 @@ var keyTypes = [][2]reflect.Type{
 	same[PTM](), same[PTS](), same[PTI](),
 }
 
-var embeds = [][2]reflect.Type{same[E1](), same[E2](), same[*E1](), same[*E2](), same[Shadow](), same[E3](), same[E3]()}
+var embeds = [][2]reflect.Type{same[E1](), same[E2](), same[*E1](), same[*E2](), same[Shadow](), same[E3](), same[E3](), same[*E4](), same[E4]()}
 
 var fieldNames = []string{"A", "B", "C", "Ab", "AB", "X", "Name", "A_b", "A_B", "K", "S", "aB", "Xx"}
 var tagNames = []string{"", "", "", "", "a", "b", "A", "c", "-", "x y", "é", "a-b", "a_b", "aB", "a,", "-,", "k", "K", "K", "s", "ſ", "'q'", "a.b", "<&>", "$x", "0"}
